@@ -117,6 +117,31 @@ func VH_C09_Parse_RetainedCapture() {
 	}
 }
 
+// VH_C09_Production: deriving a parser for a sub-production from a built
+// (frozen) parser, and using it, leaves the original parser as it was: same
+// String(), same parse results as before.
+func VH_C09_Production() {
+	toks := vhStream()
+	k := vInt("lookahead")
+	p := vhBuild[vgSub](vhNoElide, &vhStreamDef{toks: toks}, k)
+	vFreeze(p)
+	before := p.String()
+	a1, e1 := p.ParseString("f", "", AllowTrailing(true))
+	pp, err := ParserForProduction[vgSubInner](p)
+	vAssert(err == nil && pp != nil, "ParserForProduction failed for a production of the grammar")
+	_, _ = pp.ParseString("f", "", AllowTrailing(true))
+	vAssert(p.String() == before, "C09: using ParserForProduction changed what the original parser prints")
+	a2, e2 := p.ParseString("f", "", AllowTrailing(true))
+	vhSameError(e1, e2, "C09: Parse after ParserForProduction")
+	root := vhGrammar(reflect.TypeOf(vgSub{}), nil)
+	if e1 == nil {
+		vhSameAST(vhActual(root, reflect.ValueOf(a1).Elem()), vhActual(root, reflect.ValueOf(a2).Elem()), "C09: Parse after ParserForProduction")
+		vReach("accepted")
+	} else {
+		vReach("rejected")
+	}
+}
+
 // the trap itself must fire when shared state is written
 func VH_C09_Parse_Canary() {
 	toks := vhStream()
